@@ -76,7 +76,50 @@ def mention(p):
             st.builds(lambda n, v: ['a', n, 'raw', v, False], st.sampled_from(['t', 'data-a', 'title']), simple_value(p, 'abc123', 3)),
             st.builds(lambda n, f, v: ['a', n, f, v, False], st.sampled_from(['u', 'data-b']), st.sampled_from(['dq', 'sq']), simple_value(p, 'abc12 ', 3)),
         )
+    if p.mentions == 'full':
+        return full_mention(p)
     raise ValueError(p.mentions)
+
+
+ATTR_NAMES = ['class', 'id', 'disabled', 'for', 't', 'title']
+
+
+def full_mention(p):
+    ident = simple_value(p, 'abcXY12-_', 4)
+    unq = st.text(alphabet=SAFE_UNQUOTED, min_size=1, max_size=5).map(lambda s: [s])
+    dq = st.text(alphabet=[c for c in SAFE_QUOTED if c != '"'] + ["'"], max_size=6).map(lambda s: [s] if s else [])
+    sq = st.text(alphabet=[c for c in SAFE_QUOTED if c != "'"] + ['"'], max_size=6).map(lambda s: [s] if s else [])
+    ex = st.text(alphabet=list('abc .()=>12'), min_size=1, max_size=6).map(lambda s: [s])
+    name = st.sampled_from(ATTR_NAMES)
+    joined = st.booleans()
+    return st.one_of(
+        st.builds(lambda v: ['.', v], ident), st.builds(lambda v: ['.', v], ident),
+        st.builds(lambda v: ['#', v], ident),
+        st.builds(lambda n, j: ['a', n, 'none', None, j], name, joined),
+        st.builds(lambda n, v, j: ['a', n, 'raw', v, j], name, unq, joined),
+        st.builds(lambda n, v, j: ['a', n, 'dq', v, j], name, dq, joined),
+        st.builds(lambda n, v, j: ['a', n, 'sq', v, j], name, sq, joined),
+        st.builds(lambda n, v, j: ['a', n, 'expr', v, j], st.sampled_from(['t', 'title', 'for']), ex, joined),
+        st.builds(lambda n, j: ['a', n, 'bool', None, j], name, joined),
+        st.builds(lambda n, j: ['a', n, 'impl', None, j], name, joined),
+        st.builds(lambda n, f, v, j: ['a', n, f, v, j], name, st.sampled_from(['impl-raw', 'impl-dq']), st.text(alphabet='abc12', min_size=1, max_size=3).map(lambda s: [s]), joined),
+    )
+
+
+def fix_mentions(ms):
+    "the statement does not define mixing expression and non-expression values of one name: make such names all-quoted"
+    by = {}
+    for m in ms:
+        if m[0] == 'a':
+            by.setdefault(m[1], []).append(m)
+    for n, lst in by.items():
+        forms = {m[2] for m in lst}
+        if 'expr' in forms and len(forms) > 1:
+            for m in lst:
+                if m[2] == 'expr':
+                    m[2] = 'dq'
+                    m[3] = [x.replace('"', '') if isinstance(x, str) else x for x in (m[3] or [])]
+    return ms
 
 
 def text_value(p):
@@ -91,7 +134,9 @@ def element(draw, p):
     it = {'n': None if nameless else _name(draw, p), 'm': [], 'x': None, 'r': None, 'sc': False}
     if p.mentions != 'none':
         k = draw(st.integers(1, 2)) if nameless else draw(st.sampled_from([0, 0, 0, 1, 2]))
-        it['m'] = [draw(mention(p)) for _ in range(k)]
+        if p.mentions == 'full':
+            k = draw(st.integers(1 if nameless else 0, 6))
+        it['m'] = fix_mentions([draw(mention(p)) for _ in range(k)])
     if draw(st.floats(0, 1)) < p.text:
         it['x'] = draw(text_value(p))
     if draw(st.floats(0, 1)) < p.rep:
